@@ -306,8 +306,9 @@ func newValCodec(vt string) *valCodec {
 		c.zero = SV{}
 	case "ptrstruct":
 		c.zero = PV{}
-	case "nilstr":
-		// values that may be nil (a tree used as a set): ValuesLike nil, needs UnmarshalerUsesRegisteredTypes
+	case "nilstr", "nilonly":
+		// values that may be nil (a tree used as a set): ValuesLike nil, needs UnmarshalerUsesRegisteredTypes; nilonly: every value
+		// is nil (the only use of nil ValuesLike the binary format supports)
 		c.zero = nil
 	default:
 		panic("unknown value type " + vt)
@@ -330,6 +331,8 @@ func (c *valCodec) Val(rank int) interface{} {
 	case "ptrstruct":
 		p := fmt.Sprintf("p%d", rank) // a fresh allocation every time
 		return PV{X: rank, P: &p}
+	case "nilonly":
+		return nil
 	case "nilstr":
 		if rank == 1 {
 			return nil
@@ -341,7 +344,7 @@ func (c *valCodec) Val(rank int) interface{} {
 
 func (c *valCodec) Rank(v interface{}) int {
 	if v == nil {
-		if c.name == "nilstr" {
+		if c.name == "nilstr" || c.name == "nilonly" {
 			return 1
 		}
 		return -1
@@ -375,6 +378,9 @@ func (c *valCodec) Rank(v interface{}) int {
 }
 
 func (c *valCodec) RankFromJSON(raw []byte) int {
+	if (c.name == "nilstr" || c.name == "nilonly") && string(raw) == "null" {
+		return 1
+	}
 	for r := 0; r < 64; r++ {
 		b, _ := json.Marshal(c.Val(r))
 		if bytes.Equal(b, raw) {
